@@ -123,6 +123,10 @@ func main() {
 		childSync(os.Args[2:])
 		return
 	}
+	if name == "replay" {
+		replayCmd(os.Args[2:])
+		return
+	}
 	fs := flag.NewFlagSet(name, flag.ExitOnError)
 	tier := fs.String("tier", "quick", "")
 	seed := fs.Int64("seed", 1, "")
